@@ -138,13 +138,24 @@ P = {
  "C05": dict(
   text="Translation validation: the clipper is not modelled; every individual call of the real Union/Intersect/Sub/Xor (float32 "
        "and float64) is judged by an executable Lean even-odd oracle in exact dyadic arithmetic whose soundness is proved "
-       "(17 theorems): validateLattice_sound (+ outside the square, + emptiness) makes the per-call verdict universal over all "
-       "points of all open cells for rectilinear lattice inputs; validatePoints_sound for general-position inputs on sample "
-       "points that provably keep a margin from every edge; xor_concat, inside_rotate/reverse, exactness of the float decoding. "
-       "~67k calls / 3.6M judgements per quick run; operands deep-compared, panics caught.",
-  note="nothing universal about the clipper over inputs is proved; general-position inputs are judged on sample points only; "
-       "7 degenerate non-rectilinear lattice inputs on which the clipper panics or returns a wrong region are KNOWN FINDINGS "
-       "(known_findings.json, fixed enumerated corpus) - the repair is not a small patch.",
+       "(23 theorems about the definitions the driver runs): validateLattice_sound (+ outside the square, + emptiness) makes the "
+       "per-call verdict universal over all points of all open cells for rectilinear lattice inputs; validateGeneral_sound / "
+       "validatePoints_sound / clear_not_on_edge for general-position inputs on sample points (also taken from the result's own "
+       "interior) that provably keep a margin from every edge; emptyCert_sound + resultEmpty_no_region: where the combined "
+       "region is certified empty (separated operands, identical operands, a covering rectangle, an operand without edges) the "
+       "result must be empty and the law then holds at every point; decodeBits_exact / decodeBits_none_iff (the float decoding "
+       "is exact for every finite bit pattern), inside_int_iff_rat, inside_scale/translate, xor_concat, inside_rotate/reverse. "
+       "~99k calls / 6.7M judgements per quick run (5.1M exhaustive cells, 1.7M sample points, ~1600 certified-empty sampled "
+       "calls); operands deep-compared, panics caught.",
+  note="nothing universal about the clipper over inputs is proved; lattice calls are decided exhaustively per call, general-"
+       "position calls are judged on sample points only (100 candidates per call plus about 60 from the result, margin 1/64 or "
+       "1/1024); 'empty when the region is empty' is exhaustive on lattice calls and on sampled calls required only where "
+       "emptyCert certifies emptiness; points on lattice lines are not judged; a call with no judged point is counted as "
+       "unjudged, never as validated; KNOWN FINDINGS (known_findings.json, 9 fixed inputs in corpus/C05/degenerate.known.ops): on "
+       "degenerate non-rectilinear lattice inputs the clipper panics or returns wrong regions, and on one sub-epsilon input it "
+       "panics - the repair is not a small patch. Inputs whose coordinates are all below the clipper's ABSOLUTE epsilon of 1e-5 "
+       "(the lattice and general-position families scaled by 2^-20) are outside the reading of 'a margin'/'the lattice' "
+       "(Appendix B) and are run as counted observations only (the real code gets most of them wrong).",
   technique="per-call validation by a Lean oracle with a proved soundness theorem (translation validation)",
   ref="DESIGN.md section 5 C05"),
  "C06": dict(
@@ -180,17 +191,30 @@ P = {
        "not modelled.",
   ref="DESIGN.md section 5 C12"),
  "C15": dict(
-  text="17 Lean theorems over the transition system of the dispatcher protocol (24 rules: submitters, in/tasks/ready channels, "
-       "dispatcher program counter at every blocking point, backlog, workers, recovery handler, Shutdown) for all worker counts "
-       ">= 1, all depths, all task sets and all interleavings: conservation, exactly_once, running_le_workers, "
-       "dispatcher_index_safe, fifo / fifo_single_worker, panic_reported_once, panic_worker_survives, no_deadlock, "
-       "shutdown_after_all_done, shutdown_returns (a variant decreases on every rule after Shutdown). The executable next is "
-       "proved equivalent to Step; forced schedules (tasks blocked on release channels) compare the real queue's quiescent "
-       "observable with the model's, under GOMAXPROCS 1 and default.",
-  note="Go scheduler fairness is outside the model; random schedules are sampled by a child-process stress oracle judged "
-       "against the property directly (crash or hang = violation with the configuration as replay); Submit(nil) and Submit "
-       "after Shutdown are outside the domain; nil/panicking recovery handler only in stress.",
-  ref="DESIGN.md section 5 C15"),
+  text="25 Lean theorems over the threaded model of the queue (TQW.TStep: the dispatcher process() as a thread with one "
+       "program-counter value per blocking point, the in/tasks/ready channels, the backlog, and `workers` worker threads in the "
+       "loop of work() with exception semantics for panics - a panic unwinds to the deferred errs.Recovery of runTask, the "
+       "handler call is a step of its own, an unrecovered panic would terminate the thread), for all worker counts >= 1, all "
+       "depths, handler installed or not, all task sets, panic patterns and interleavings: refines_protocol (the shared part is "
+       "simulated by the 22-rule dispatcher protocol TQ.Step), conservation, exactly_once, running_le_workers (derived: only "
+       "worker threads execute tasks, one at a time), dispatcher_index_safe, counter_equation, fifo / fifo_single_worker, "
+       "no_worker_dies, panic_always_recovered, panic_reported_once, no_deadlock, shutdown_after_all_done/_all_reported, "
+       "shutdown_returns (a variant decreases on every rule after Shutdown, no fairness needed). Contrast theorems with concrete "
+       "schedules show the clauses fail for programs outside the class: no recover in runTask (worker dies), a dispatcher that "
+       "runs backlog tasks (Workers+1 executing), tasks that Submit to their own queue (deadlock). The executable tnext is proved "
+       "equal to TStep and is what the driver runs: forced schedules (tasks blocked on release channels) compare the real "
+       "queue's quiescent observable - for one worker including start and finish order - with the model's over all "
+       "interleavings, under GOMAXPROCS 1 and default.",
+  note="Domain: tasks end, by returning or by panicking (runtime.Goexit in a task terminates its worker without a completion "
+       "signal and Shutdown never returns: observed, outside the domain); Submit is not called with nil, nor after or "
+       "concurrently with Shutdown (a Submit blocked on a full `in` when Shutdown closes it panics); tasks do not Submit to the "
+       "queue that runs them (on a bounded queue this deadlocks deterministically - inherent to blocking at Depth; modelled as "
+       "Variant.nest: the safety theorems cover it, the liveness theorems exclude it). Panic values are abstracted in the model "
+       "and varied by the harness over ten kinds; the `in` capacity is a model parameter, injected as 1..5 in the forced area by "
+       "an overlay and the real 2*NumCPU runs only in stress; for Workers > 1 the forced tie compares sets; random schedules are "
+       "judged by a model-free stress oracle in child processes (crash or hang = violation with the configuration as replay); Go "
+       "scheduler fairness is outside the model and is not needed by shutdown_returns.",
+  ref="DESIGN.md section 5 C15, section 0"),
  "C19": dict(
   text="26 Lean theorems about the executable file-system model of tar/zip ExtractWithMask and EnsureNoSymlinks (directories, "
        "inodes with hard links, symlinks, textual prefix test, MkdirAll, open/truncate, Link, Symlink, masks, first error "
